@@ -35,7 +35,8 @@
    9112 s7.1   chunked-body = *chunk last-chunk trailer-section CRLF, chunk lines end in CRLF strictly;
                chunk-ext: BWS is tolerated (s7.1.1: "MUST parse for such bad whitespace"), the extension
                text itself is not interpreted (any octets but CR / LF after ';');
-               trailer-section lines are fields (same rules as header fields, LF lenient). *)
+               trailer-section: lines (LF lenient) up to the empty line; their content is not inspected
+               (it cannot influence boundaries, method, target or body). *)
 From FH Require Import Model.Base.
 Open Scope N_scope.
 
@@ -94,7 +95,7 @@ Definition http_version (v : bytes) : option bool :=
   | _ => None
   end.
 
-Record reqline := { rl_method : bytes; rl_target : bytes; rl_v11 : bool }.
+Record reqline := { rq_method : bytes; rq_target : bytes; rq_v11 : bool }.
 
 Definition parse_request_line (l : bytes) : option reqline :=
   match split_at 32 l with
@@ -104,7 +105,7 @@ Definition parse_request_line (l : bytes) : option reqline :=
           match http_version v with
           | Some v11 =>
               if is_token m && (match t with [] => false | _ => forallb is_target_octet t end)
-              then Some {| rl_method := m; rl_target := t; rl_v11 := v11 |}
+              then Some {| rq_method := m; rq_target := t; rq_v11 := v11 |}
               else None
           | None => None
           end
@@ -117,22 +118,22 @@ Definition parse_request_line (l : bytes) : option reqline :=
 Definition field := (bytes * bytes)%type.        (* name as received, value with OWS trimmed and folds replaced *)
 
 Inductive fl_res :=
-| FLIncomplete                                   (* the stream ends before the empty line *)
-| FLInvalid
-| FLOk (fields : list field) (rest : bytes).
+| FsIncomplete                                   (* the stream ends before the empty line *)
+| FsInvalid
+| FsOk (fields : list field) (rest : bytes).
 
 Definition ends_with_ows (s : bytes) : bool := match rev s with c :: _ => is_ows c | [] => false end.
 
 (* acc = fields so far, most recent first *)
 Fixpoint field_lines (fuel : nat) (acc : list field) (b : bytes) : fl_res :=
   match fuel with
-  | O => FLIncomplete
+  | O => FsIncomplete
   | S f =>
       match take_line b with
-      | None => FLIncomplete
+      | None => FsIncomplete
       | Some (l, rest) =>
           match l with
-          | [] => FLOk (rev acc) rest
+          | [] => FsOk (rev acc) rest
           | c :: _ =>
               if is_ows c then
                 match acc with
@@ -142,9 +143,9 @@ Fixpoint field_lines (fuel : nat) (acc : list field) (b : bytes) : fl_res :=
               else
                 match split_at 58 l with
                 | (n, Some v) =>
-                    if ends_with_ows n || (match n with [] => true | _ => false end) then FLInvalid
+                    if ends_with_ows n || (match n with [] => true | _ => false end) then FsInvalid
                     else field_lines f ((n, trim_ows v) :: acc) rest
-                | (_, None) => FLInvalid
+                | (_, None) => FsInvalid
                 end
           end
       end
@@ -169,11 +170,11 @@ Definition all_elements (vs : list bytes) : list bytes := flat_map list_elements
 
 (* ---------- message body length (s6.3) ---------- *)
 Inductive fclass := Clean | AmbiguousMustClose | Invalid.
-Inductive blen :=
+Inductive bodylen :=
 | BNone                      (* the RFC assigns no body length *)
 | BChunked
 | BFixed (n : N).
-Record decision := { d_class : fclass; d_len : blen }.
+Record decision := { d_class : fclass; d_len : bodylen }.
 
 Definition all_digits (s : bytes) : bool := match s with [] => false | _ => forallb is_digit s end.
 Definition dec_value (s : bytes) : N := fold_left (fun a c => 10 * a + (c - 48)) s 0.
@@ -275,9 +276,9 @@ Fixpoint chunks (fuel : nat) (b : bytes) : ch_res :=
           | Some (Some r1) =>
               if n =? 0 then ChOk [] r1
               else
-                let k := N.to_nat n in
-                if (length r1 <? k)%nat then ChIncomplete
+                if N.of_nat (length r1) <? n then ChIncomplete      (* compared in N: sizes can be astronomically large *)
                 else
+                  let k := N.to_nat n in
                   let data := firstn k r1 in
                   match skipn k r1 with
                   | 13 :: 10 :: r2 =>
@@ -292,6 +293,19 @@ Fixpoint chunks (fuel : nat) (b : bytes) : ch_res :=
       end
   end.
 
+(* trailer-section CRLF: lines up to and including the empty line.  What a trailer line contains cannot
+   change where the message ends nor its method, target or body (trailer fields are never framing fields:
+   RFC 9110 s6.5.1), so the lines are not inspected; only the delimitation matters here. *)
+Fixpoint trailer_section (fuel : nat) (b : bytes) : option bytes :=
+  match fuel with
+  | O => None
+  | S f => match take_line b with
+           | None => None
+           | Some ([], rest) => Some rest
+           | Some (_, rest) => trailer_section f rest
+           end
+  end.
+
 Inductive body_res :=
 | BdIncomplete
 | BdMalformed
@@ -302,10 +316,9 @@ Definition chunked_body (b : bytes) : body_res :=
   | ChIncomplete => BdIncomplete
   | ChMalformed => BdMalformed
   | ChOk data r =>
-      match field_lines (S (length r)) [] r with          (* trailer-section CRLF *)
-      | FLIncomplete => BdIncomplete
-      | FLInvalid => BdMalformed
-      | FLOk _ rest => BdOk data rest
+      match trailer_section (S (length r)) r with         (* trailer-section CRLF *)
+      | None => BdIncomplete
+      | Some rest => BdOk data rest
       end
   end.
 
@@ -343,18 +356,18 @@ Definition rfc_message (b0 : bytes) : msg_res :=
           | None => MBad
           | Some rl =>
               match field_lines (S (length r1)) [] r1 with
-              | FLIncomplete => MIncomplete
-              | FLInvalid => MBad
-              | FLOk fs r2 =>
-                  let d := rfc_decision (rl_v11 rl) (field_values name_transfer_encoding fs)
+              | FsIncomplete => MIncomplete
+              | FsInvalid => MBad
+              | FsOk fs r2 =>
+                  let d := rfc_decision (rq_v11 rl) (field_values name_transfer_encoding fs)
                                         (field_values name_content_length fs) in
-                  let mk body := {| r_method := rl_method rl; r_target := rl_target rl; r_body := body |} in
+                  let mk body := {| r_method := rq_method rl; r_target := rq_target rl; r_body := body |} in
                   match d_len d with
                   | BNone => MMsg (mk None) (d_class d) None
                   | BFixed n =>
-                      let k := N.to_nat n in
-                      if (length r2 <? k)%nat then MIncomplete
-                      else MMsg (mk (Some (firstn k r2))) (d_class d) (Some (skipn k r2))
+                      if N.of_nat (length r2) <? n then MIncomplete
+                      else let k := N.to_nat n in
+                           MMsg (mk (Some (firstn k r2))) (d_class d) (Some (skipn k r2))
                   | BChunked =>
                       match chunked_body r2 with
                       | BdIncomplete => MIncomplete
